@@ -378,3 +378,92 @@ def compares(test):
         for op, right in zip(test.ops, test.comparators):
             yield left, op, right
             left = right
+
+
+# ---------------------------------------------------------------------- structured dataflow
+class DF:
+    """Forward must-analysis over structured statements.
+
+    subclass and override: transfer(stmt, state) -> state ; refine(test, pol, state) -> state ;
+    join(a, b) -> state ; visit_expr(node, state) (called for every expression owner before its
+    effect).  States must be immutable values.  A block that always exits yields None.
+    """
+
+    def transfer(self, st, state):
+        return state
+
+    def refine(self, test, pol, state):
+        return state
+
+    def join(self, a, b):
+        raise NotImplementedError
+
+    def visit(self, st, state):
+        pass
+
+    def on_exit(self, st, state):
+        pass
+
+    def _refine_all(self, test, pol, state):
+        for c in atoms(test, pol):
+            state = self.refine(c.test, c.pol, state)
+        return state
+
+    def run(self, stmts, state):
+        for st in stmts:
+            if state is None:
+                return None
+            if isinstance(st, ast.If):
+                self.visit(st.test, state)
+                a = self.run(st.body, self._refine_all(st.test, True, state))
+                b = self.run(st.orelse, self._refine_all(st.test, False, state))
+                state = b if a is None else a if b is None else self.join(a, b)
+            elif isinstance(st, (ast.For, ast.While)):
+                self.visit(st.iter if isinstance(st, ast.For) else st.test, state)
+                entry = self.transfer(st, state)  # loop target assignment
+                out = self.run(st.body, entry)
+                merged = entry if out is None else self.join(entry, out)
+                # second pass for stability of must-facts
+                out2 = self.run(st.body, merged)
+                merged = merged if out2 is None else self.join(merged, out2)
+                after = self.join(state, merged)
+                oe = self.run(st.orelse, after) if st.orelse else after
+                state = oe
+            elif isinstance(st, ast.Try):
+                a = self.run(st.body, state)
+                outs = [a] if a is not None else []
+                for h in st.handlers:
+                    # handler may start from any point of the body: be conservative, start from entry joined with body end
+                    hin = state if a is None else self.join(state, a)
+                    o = self.run(h.body, hin)
+                    if o is not None:
+                        outs.append(o)
+                if st.orelse and a is not None:
+                    o = self.run(st.orelse, a)
+                    outs = [x for x in outs if x is not a]
+                    if o is not None:
+                        outs.append(o)
+                cur = None
+                for o in outs:
+                    cur = o if cur is None else self.join(cur, o)
+                state = cur
+                if st.finalbody:
+                    state = self.run(st.finalbody, state if state is not None else state)
+            elif isinstance(st, ast.With):
+                self.visit(st, state)
+                state = self.transfer(st, state)
+                state = self.run(st.body, state)
+            else:
+                self.visit(st, state)
+                state = self.transfer(st, state)
+                if isinstance(st, ast.Return):
+                    self.on_exit(st, state)
+                if isinstance(st, (ast.Return, ast.Raise, ast.Continue, ast.Break)):
+                    return None
+        return state
+
+    def run_function(self, func, state):
+        out = self.run(func.body, state)
+        if out is not None:
+            self.on_exit(func, out)
+        return out
